@@ -83,5 +83,9 @@ def run(ctx):
     rnd = ctx.rng("conc")
     cs = [("c%d" % i, ["run %d %d %d %d %d" % (rnd.choice([2, 4, 8, 16]), ctx.scale(20000, 200000), rnd.choice([1, 2, 5]), rnd.choice([50, 1000, 100000]), rnd.randint(1, 10**6))])
           for i in range(ctx.scale(12, 120))]
+    # long histories: one busy series and a few quiet ones, timestamps spread over years, a single caller (then the per-caller
+    # order is the acceptance order): whatever the validator remembers must not fade with the number of calls or with time
+    cs += [("q%d" % i, ["run 1 %d %d %d %d 1" % (ctx.scale(150000, 1500000), rnd.choice([3, 6]), rnd.choice([10**8, 4 * 10**9]), rnd.randint(1, 10**6))])
+           for i in range(ctx.scale(3, 20))]
     ctx.stream("ordered-concurrent", "ordconc", cs, model=False, monitor=conc_monitor, shrink=False,
                nontrivial=lambda l, o: l[0])
